@@ -272,6 +272,15 @@ def run(tier, seed):
             rep.inconclusive.append("default-store job: %r" % (r,))
         else:
             rep.merge(r)
+    # workers forked from a process with a DBFS store keep different results at the same time: every path serves its own value
+    from checks import c17
+
+    kjobs = [(None, ["str_ascii", "str_nonascii"], "full"), (None, ["nested", "bytes_plain", "obj"], "links_only")]
+    for j, r in zip(kjobs, core.fork_map(lambda a: c17.fork_keep_job(a, prop="C04"), kjobs, timeout=900)):
+        if isinstance(r, core.JobFailed):
+            rep.inconclusive.append("fork-keep job: %r" % (r,))
+        else:
+            rep.merge(r)
     rep.sample({"case": cases[0]["name"], "history": cases[0]["history"][:5]})
     if rep.counters.get("path_loads_checked", 0) == 0:
         rep.inconclusive.append("no path load was observed")
@@ -289,6 +298,12 @@ def replay(payload):
     if payload["case"].get("moved_internal"):
         c = payload["case"]
         rep.merge(moved_internal_job((c["program"], c["cache"], c["idx"])))
+        return rep
+    if payload["case"].get("fork_keep"):
+        from checks import c17
+
+        c = payload["case"]
+        rep.merge(c17.fork_keep_job((c["cache"], c["tags"], c.get("commit_type")), prop="C04"))
         return rep
     if payload["case"].get("default_store"):
         from checks import c16
